@@ -48,7 +48,8 @@ type step struct {
 	location string // with 301: Location header; the GET that follows is answered by target
 	target   *step
 	body     string
-	readErr  int // >= 0: deliver body[:readErr], then fail the read
+	readErr  int   // >= 0: deliver body[:readErr], then fail the read
+	clen     int64 // != 0: the Content-Length the server declares (0: none, the length is unknown)
 }
 
 func ok200(body string) step { return step{status: 200, body: body, readErr: -1} }
@@ -121,8 +122,13 @@ func (rt *scriptedRT) RoundTrip(req *http.Request) (*http.Response, error) {
 	if st.readErr >= 0 {
 		body = &failingBody{data: []byte(st.body[:st.readErr])}
 	}
+	cl := int64(-1)
+	if st.clen != 0 {
+		cl = st.clen
+		h.Set("Content-Length", fmt.Sprint(cl))
+	}
 	return &http.Response{StatusCode: st.status, Status: fmt.Sprintf("%d %s", st.status, http.StatusText(st.status)), Header: h,
-		Body: body, Request: req, Proto: "HTTP/1.1", ProtoMajor: 1, ProtoMinor: 1, ContentLength: -1}, nil
+		Body: body, Request: req, Proto: "HTTP/1.1", ProtoMajor: 1, ProtoMinor: 1, ContentLength: cl}, nil
 }
 
 type nolog struct{}
@@ -186,7 +192,9 @@ func variants(w *world) []*variant {
 				c := w.sthContents()[0]
 				return sthBody(c, honestDS(kc.k, hSHA256, sthInput(c)))
 			},
-			call: func(ctx context.Context, lc *client.LogClient, _ *client.TemporalLogClient, _ *submission) (any, error) { return lc.GetSTH(ctx) }},
+			call: func(ctx context.Context, lc *client.LogClient, _ *client.TemporalLogClient, _ *submission) (any, error) {
+				return lc.GetSTH(ctx)
+			}},
 		add("AddChain", w.subX509, both, false),
 		add("AddPreChain", w.subPre, both, false),
 		add("AddPreChain[via precert signing cert]", w.subPreIssuer, both, false),
@@ -380,10 +388,10 @@ func semanticBodies(w *world, v *variant, kc *keyCfg, thorough bool) []bodyCase 
 type predKind int
 
 const (
-	pNoResponse predKind = iota // transport failure before any response reached the JSON client
-	pRspError                   // a response was received that a correct client must refuse
-	pRetryUntilDeadline         // the server keeps asking for retries: the call ends with the context
-	pOK200                      // a 200 whose body has to be judged
+	pNoResponse         predKind = iota // transport failure before any response reached the JSON client
+	pRspError                           // a response was received that a correct client must refuse
+	pRetryUntilDeadline                 // the server keeps asking for retries: the call ends with the context
+	pOK200                              // a 200 whose body has to be judged
 )
 
 type prediction struct {
@@ -1072,7 +1080,9 @@ func (c *checker) sessions(v *variant, kc *keyCfg) []session {
 	th := c.r.Thorough()
 	_, honest, bodies := c.bodies(v, kc)
 	var out []session
-	hc := func(b bodyCase) *hcase { return &hcase{label: b.label, sc: script{then: ok200(b.body)}, benign: b.benign} }
+	hc := func(b bodyCase) *hcase {
+		return &hcase{label: b.label, sc: script{then: ok200(b.body)}, benign: b.benign}
+	}
 	H := hc(bodyCase{label: "honest", body: honest, benign: true})
 	for _, b := range bodies[1:] {
 		pick := th
@@ -1192,6 +1202,15 @@ func (c *checker) cases(v *variant, kc *keyCfg) []hcase {
 			out = append(out, hcase{label: fmt.Sprintf("body-read-error status-%d after-%d-bytes", s, n), sc: script{then: step{status: s, body: honest, readErr: n}}})
 		}
 	}
+	// ... the same with the length the server had declared: far more than it delivers (a peer that overstates
+	// Content-Length and then drops the connection), up to the largest value the header can carry
+	for _, n := range []int{0, len(honest) / 2, len(honest)} {
+		for _, declared := range []int64{int64(len(honest)) + 1, 1 << 31, 1 << 62, 1<<63 - 1} {
+			out = append(out, hcase{label: fmt.Sprintf("body-read-error status-200 after-%d-bytes content-length-%d", n, declared), sc: script{then: step{status: 200, body: honest, readErr: n, clen: declared}}})
+		}
+	}
+	// ... and a complete body under an exact Content-Length
+	out = append(out, hcase{label: "honest body with its exact content-length", sc: script{then: step{status: 200, body: honest, readErr: -1, clen: int64(len(honest))}}})
 	// F. a retryable answer first, then a 200 (the add methods retry; the others must fail at once)
 	firsts := []step{{status: 408, body: "timeout", readErr: -1}, {status: 429, body: "slow down", readErr: -1}, {status: 503, body: htmlBody, readErr: -1},
 		{neterr: true, readErr: -1}, {status: 200, body: honest, readErr: len(honest) / 2}}
